@@ -60,11 +60,15 @@ Definition st1 := final tcfg init_sys h1.
 Definition st2 := final tcfg init_sys h2.
 Definition st3 := final tcfg init_sys h3.
 
-(* the calls on which model and reference differ: CreateFile on an existing regular file (T02Counter.v (2)); [tcfg]
-   has uid 7, gid 8, so CreateFile with content on a new name is tested with an identity that is not 0/0/""/"" *)
+(* the calls on which model and reference differ: CreateFile WITHOUT content on an existing EMPTY regular file
+   (T02Counter.v (2): nothing is written, the reference stamps the modification time); CreateFile on any other
+   existing regular file agrees (the flush stamps the modification time).  [tcfg] has uid 7, gid 8, so CreateFile
+   with content on a new name is tested with an identity that is not 0/0/""/"" *)
 Definition is_corner (st : sys) (k : call) : bool :=
   match k with
-  | CCreateFile n d => match lookup (abs st) n with Some v => negb (is_dir v) | None => false end
+  | CCreateFile n d => match lookup (abs st) n with
+                       | Some v => negb (is_dir v) && (n_size v =? 0) && match d with [] => true | _ => false end
+                       | None => false end
   | _ => false
   end.
 
@@ -78,7 +82,7 @@ Example test_st2 : forallb (fun k => is_corner st2 k || check tcfg st2 (e0 99) k
 Proof. vm_compute. reflexivity. Qed.
 Example test_corners_differ :
   forallb (fun st => forallb (fun k => negb (check tcfg st (e0 99) k)) (filter (is_corner st) all_calls)) [st1; st2; st3] = true /\
-  map (fun st => length (filter (is_corner st) all_calls)) [st1; st2; st3] = [6; 4; 0]%nat.
+  map (fun st => length (filter (is_corner st) all_calls)) [st1; st2; st3] = [1; 1; 0]%nat.
 Proof. vm_compute. split; reflexivity. Qed.
 Example test_count : (length all_calls, closedb (abs st1), closedb (abs st2), closedb (abs st3)) = (322%nat, true, true, true).
 Proof. vm_compute. reflexivity. Qed.
